@@ -20,6 +20,7 @@ import (
 	"github.com/alephium/wormhole-fork/node/verifh/ev"
 	"github.com/alephium/wormhole-fork/node/verifh/keys"
 	"github.com/alephium/wormhole-fork/node/verifh/mc"
+	"github.com/alephium/wormhole-fork/node/verifh/vaahist"
 	"github.com/ethereum/go-ethereum/common"
 	"github.com/ethereum/go-ethereum/crypto"
 )
@@ -253,6 +254,8 @@ func main() {
 			ev.Broken("explorer-backend variant does not start: %v", err)
 		}
 	}
+	// ---- operation histories on one VAA object: the verdict is a function of the current field values alone
+	vaahist.Explore(r, "C06", r.Pick(4, 5))
 	// ---- small lists
 	nCorrupt := 4 + len(vvals) + 4
 	for _, list := range smallLists() {
